@@ -1,7 +1,17 @@
 (* C19 — the segmentation closing relation follows the rule table; in/out classification; Equal is an
    equivalence (on descriptors whose signal has a PTS) and a congruence for the closing relation.
    Only statements here; proofs in Proofs/SegProofs.v.  Model: Model/SegDesc.v (CanClose, Equal, IsIn,
-   IsOut as segmentationdescriptor.go computes them); reference: Spec/SegRules.v (golden table, lists). *)
+   IsOut as segmentationdescriptor.go computes them); reference: Spec/SegRules.v (golden table, lists).
+
+   WHAT THE REFERENCE IS (audit item 17).  doc.go carries no prose table, so Spec/SegRules.v (golden, in_types,
+   out_types) is a second transcription of the same Go source the model transcribes (the segCloseRules literal with
+   the four init() additions, the IsIn / IsOut case lists) -- in another shape (flat relation with conditions
+   instead of map-of-maps with 8 rule kinds and a switch), but not an independent document.  The theorems
+   therefore say: the evaluation machinery (two lookups, eight kinds, IsIn inside one kind, the sub-segment
+   kind) adds and loses nothing relative to the flat table, for all descriptors; C19_in_out_lists in particular
+   compares a list with its copy.  The assurance that the CODE has exactly this table and these lists is the
+   exhaustive tie of bin/gen/c19.py (every one of the 256 x 256 x 24 cells and all 256 classifications through
+   the real API on every run): a changed, dropped or added entry in /repo is reported with the concrete pair. *)
 From Gots Require Import Base.Prelude Model.SegDesc Spec.SegRules Proofs.SegProofs.
 Import SegDesc SegRules.
 Local Open Scope N_scope.
@@ -27,7 +37,7 @@ Theorem C19_rule_types : forall t, has_rules t = true <-> In t rule_types.
 Proof. exact has_rules_iff. Qed.
 Print Assumptions C19_rule_types.
 
-(* classification = the documented lists; no type is both *)
+(* classification = the lists of Spec/SegRules.v (a copy of the Go case lists, see the header); no type is both *)
 Theorem C19_in_out_lists : forall d,
   (IsIn d = true <-> In (ty d) in_types) /\ (IsOut d = true <-> In (ty d) out_types).
 Proof. exact in_out_lists. Qed.
